@@ -890,6 +890,19 @@ func (g *gen) storeLoc(st State, l *Loc, v Val, vt types.Type) {
 	g.locWrite(st, l, v.T)
 }
 
+// sentinelErr: package-level `var ErrX = errors.New(…)` values are modelled as distinct, non-nil,
+// immutable constants (assumption: sentinel errors are never reassigned).
+func sentinelErr(gl *ssa.Global) (string, bool) {
+	pt, ok := gl.Type().(*types.Pointer)
+	if !ok || !strings.HasPrefix(gl.Name(), "Err") {
+		return "", false
+	}
+	if n, ok := pt.Elem().(*types.Named); !ok || n.Obj().Name() != "error" || n.Obj().Pkg() != nil {
+		return "", false
+	}
+	return fmt.Sprintf("(iface-mk 1000000 %d)", hashStr(gl.Pkg.Pkg.Path()+"."+gl.Name())), true
+}
+
 func locKey(l *Loc) string {
 	var b strings.Builder
 	b.WriteString(l.Comp)
@@ -1001,6 +1014,12 @@ func (g *gen) unop(x *ssa.UnOp, st State, reach string) {
 	v := g.redirect(g.val(x.X))
 	switch x.Op {
 	case token.MUL: // load
+		if gl, ok := x.X.(*ssa.Global); ok {
+			if t, ok := sentinelErr(gl); ok {
+				g.vals[x] = Val{T: t, S: "Iface", GoT: x.Type()}
+				return
+			}
+		}
 		loc := g.derefLoc(v, x.X.Type(), st, reach, x.Pos())
 		if len(loc.Idx) > 0 && g.volatile[loc.Idx[0]] {
 			g.vals[x] = g.havocVal(x.Name()+"_volatile", x.Type(), st, reach)
